@@ -411,7 +411,7 @@ class HMixed:
     name = 'H-MIXED'
 
     PROFILES = {
-        'A': ('dur', (('p', 'plain'), ('i', 'a'), ('p', 'round'), ('i', 'ab'))),
+        'A': ('dur', (('p', 'plain'), ('i', 'a'), ('x', 1), ('p', 'round'), ('i', 'ab'))),
         'AB': ('both', (('i', 'a'),)),
         'C': ('none', (('p', 'empty'), ('p', 'unicode'))),
         'D': ('nometa', (('i', 'c'), ('p', 'padded-plain'))),
@@ -776,7 +776,7 @@ def accessor_states(max_n=3, kinds=('dur', 'both', 'none', 'nometa'), edstarts=(
                         stories = []
                         k = rot
                         for sid, tk, ni in zip(ids, combo, nitems):
-                            body = [('p', 'plain')]
+                            body = [('p', 'plain'), ('x', 1)]      # the foreign element holds a hidden <p> and <item>
                             for j in range(ni):
                                 body.append(('i', gen.ITEM_POOL[j], 0, subsets[k % 32]))
                                 body.append(('p', 'round'))
